@@ -345,8 +345,8 @@ func r2sibGroups() []*r2sibGroup {
 				return e.methodsByResultFields("homescript/analyzer", "Analyzer", "Body", "ReturnType", "Parameters")
 			},
 			Shared: []r2sibShared{
-				{"TypeCheck(body type, declared return type)", r2sibRe(`^TypeCheck\(got=self\.block\(\$0\.Body\)\.Type\(\)\)$`)},
-				{"the mismatch is reported", r2sibRe(`^diag\+= self\.TypeCheck\(self\.block\(\$0\.Body\)\.Type\(\)\)\.GotDiagnostic$`)},
+				{"TypeCheck(body type, declared return type)", r2sibRe(`^TypeCheck\(got=desc\[AnalyzedBlock\]\(\$0\.Body\)\.Type\(\)\)$`)},
+				{"the mismatch is reported", r2sibRe(`^diag\+= self\.TypeCheck\(desc\[AnalyzedBlock\]\(\$0\.Body\)\.Type\(\)\)\.GotDiagnostic$`)},
 			},
 		},
 		{
@@ -411,7 +411,7 @@ func r2sibGroups() []*r2sibGroup {
 			Kinds:   map[string]bool{"call": true},
 			Opts:    r2sibOpts{Calls: r2sibRe(`^value\.DeepCast$`)},
 			Shared:  []r2sibShared{{"value.DeepCast is called", r2sibRe(`^call value\.DeepCast$`)}},
-			Assume:  []r2sibAssume{{r2sibRe(`^self\.expression\(.*\)#1 == nil$`), true}},
+			Assume:  []r2sibAssume{{r2sibRe(`^desc\[Value\]\(.*\)#1 == nil$`), true}},
 			AssumeW: "paths on which evaluating the operand raised an interrupt are not normal paths",
 		},
 		{
@@ -421,6 +421,13 @@ func r2sibGroups() []*r2sibGroup {
 			Members: func(e *r2sibEngine) []r2sibMember {
 				var out []r2sibMember
 				p := e.c.Pkg("homescript/analyzer")
+				// the scope-declaring methods, by role: Module methods that store into a scope map
+				declMethods := map[*types.Func]bool{}
+				for _, m := range e.methodsStoringInto("homescript/analyzer", "Module", "Scopes") {
+					if fn, ok := p.TypesInfo.Defs[m.Fd.Name].(*types.Func); ok {
+						declMethods[fn] = true
+					}
+				}
 				for _, fd := range AllFuncDecls(p) {
 					if fd.Recv == nil || recvTypeName(fd.Recv.List[0].Type) != "Analyzer" {
 						continue
@@ -433,7 +440,7 @@ func r2sibGroups() []*r2sibGroup {
 						for _, st := range l.Region {
 							ast.Inspect(st, func(n ast.Node) bool {
 								if call, ok := n.(*ast.CallExpr); ok {
-									if fn := CalleeOf(f.info, call); fn != nil && fn.Name() == "addVar" {
+									if fn := CalleeOf(f.info, call); fn != nil && declMethods[fn] {
 										declares = true
 									}
 								}
@@ -464,21 +471,36 @@ func r2sibGroups() []*r2sibGroup {
 				if m == nil {
 					return nil
 				}
-				return e.clausesTesting(*m, r2sibRe(`^self\.expression\(\$0\.Base\)\.Type\(\)\.Kind\(\)$`), r2sibRe(`^self\.expression\(\$0\.Index\)\.Type\(\)\.Kind\(\) == `))
+				return e.clausesTesting(*m, r2sibRe(`^desc\[AnalyzedExpression\]\(\$0\.Base\)\.Type\(\)\.Kind\(\)$`), r2sibRe(`^desc\[AnalyzedExpression\]\(\$0\.Index\)\.Type\(\)\.Kind\(\) == `))
 			},
-			Rename: []r2sibRename{{r2sibRe(`(self\.expression\(\$0\.Index\)\.Type\(\)\.Kind\(\) == )const:ast\.\w+`), "${1}§admitted-kind"}},
+			Rename: []r2sibRename{{r2sibRe(`(desc\[AnalyzedExpression\]\(\$0\.Index\)\.Type\(\)\.Kind\(\) == )const:ast\.\w+`), "${1}§admitted-kind"}},
 		},
 		{
 			ID:     "bool-conditions",
 			Reason: "ifExpression and whileStatement analyse a condition: both unify its type with bool on every path and report the mismatch",
 			Mode:   "shared", Min: 2,
 			Members: func(e *r2sibEngine) []r2sibMember {
-				return e.methodsByParamFields("homescript/analyzer", "Analyzer", "Condition")
+				// by role: the walkers whose node has a Condition that they hand to a descent themselves
+				var out []r2sibMember
+				for _, m := range e.methodsByParamFields("homescript/analyzer", "Analyzer", "Condition") {
+					f := r2sibFuncOf(e.c, m.Pkg, m.Fd)
+					descends := false
+					ast.Inspect(m.Fd.Body, func(n ast.Node) bool {
+						if call, ok := n.(*ast.CallExpr); ok && len(call.Args) > 0 && r2sibDescent(CalleeOf(f.info, call)) && f.norm(call.Args[0]) == "$0.Condition" {
+							descends = true
+						}
+						return true
+					})
+					if descends {
+						out = append(out, m)
+					}
+				}
+				return out
 			},
 			CompareExp: true,
 			Shared: []r2sibShared{
-				{"TypeCheck(condition type, bool)", r2sibRe(`^TypeCheck\(got=self\.expression\(\$0\.Condition\)\.Type\(\)\)$`)},
-				{"the mismatch is reported", r2sibRe(`^diag\+= self\.TypeCheck\(self\.expression\(\$0\.Condition\)\.Type\(\)\)\.GotDiagnostic$`)},
+				{"TypeCheck(condition type, bool)", r2sibRe(`^TypeCheck\(got=desc\[AnalyzedExpression\]\(\$0\.Condition\)\.Type\(\)\)$`)},
+				{"the mismatch is reported", r2sibRe(`^diag\+= self\.TypeCheck\(desc\[AnalyzedExpression\]\(\$0\.Condition\)\.Type\(\)\)\.GotDiagnostic$`)},
 			},
 		},
 	}
